@@ -1,0 +1,70 @@
+//go:build verif
+
+package dv
+
+import (
+	"github.com/named-data/ndnd/dv/table"
+	"github.com/named-data/ndnd/dv/tlv"
+	enc "github.com/named-data/ndnd/std/encoding"
+)
+
+// Verification hooks for property C18 (wrappers and accessors only; no behaviour change).
+
+func (dv *Router) Vf18Rib() *table.Rib                 { return dv.rib }
+func (dv *Router) Vf18Neighbors() *table.NeighborTable { return dv.neighbors }
+
+// Vf18AdvertSeq returns the router's own advertisement sequence number
+// (incremented by advertSyncNotifyNew whenever a table change was flagged).
+func (dv *Router) Vf18AdvertSeq() uint64 {
+	dv.mutex.Lock()
+	defer dv.mutex.Unlock()
+	return dv.advertSyncSeq
+}
+
+// Vf18Advert returns the current advertisement exactly as advertDataOnInterest builds it.
+func (dv *Router) Vf18Advert() *tlv.Advertisement {
+	dv.mutex.Lock()
+	defer dv.mutex.Unlock()
+	return dv.rib.Advert()
+}
+
+// Vf18SelfInit adds the router itself to the RIB, the table statement of Start().
+func (dv *Router) Vf18SelfInit() {
+	dv.mutex.Lock()
+	defer dv.mutex.Unlock()
+	dv.rib.Set(dv.config.RouterName(), dv.config.RouterName(), 0)
+}
+
+// Vf18StartNfdc runs the management command consumer (as Start() does).
+func (dv *Router) Vf18StartNfdc() { go dv.nfdc.Start() }
+func (dv *Router) Vf18StopNfdc()  { dv.nfdc.Stop() }
+
+// Vf18AddNeighbor creates the neighbour entry as advertSyncOnInterest does for an unknown
+// neighbour (without a face).
+func (dv *Router) Vf18AddNeighbor(name enc.Name) bool {
+	dv.mutex.Lock()
+	defer dv.mutex.Unlock()
+	if dv.neighbors.Get(name) != nil {
+		return false
+	}
+	dv.neighbors.Add(name)
+	return true
+}
+
+// Vf18RibUpdate stores a received advertisement for the neighbour and runs ribUpdate
+// synchronously (advertDataHandler does `ns.Advert = advert; go dv.ribUpdate(ns)`).
+func (dv *Router) Vf18RibUpdate(name enc.Name, advert *tlv.Advertisement) bool {
+	dv.mutex.Lock()
+	ns := dv.neighbors.Get(name)
+	if ns == nil {
+		dv.mutex.Unlock()
+		return false
+	}
+	ns.Advert = advert
+	dv.mutex.Unlock()
+	dv.ribUpdate(ns)
+	return true
+}
+
+// Vf18CheckDead runs the dead-neighbour sweep of the deadcheck ticker.
+func (dv *Router) Vf18CheckDead() { dv.checkDeadNeighbors() }
